@@ -131,6 +131,7 @@ func c01Metas(thorough bool) []c01Meta {
 		{Name: "meta+tags", Hdrs: H("x-amz-meta-a", "1", "x-amz-meta-b", "two words", "Content-Type", "application/json"), Tags: "k1=v1&k2=v2"},
 		{Name: "mixed-case-meta", Hdrs: H("X-Amz-Meta-CamelCase", "MiXeD", "x-amz-meta-with-dash", "d-1", "x-amz-meta-num123", "0")},
 		{Name: "tags-escaped", Tags: "sp%20ace=pl%2Bus&e=&path=a%2Fb%3Ac%40d"},
+		{Name: "empty-meta-value", Hdrs: H("x-amz-meta-empty", "", "x-amz-meta-full", "x")},
 	}
 	if thorough {
 		ms = append(ms,
